@@ -59,6 +59,45 @@ Theorem C10_elimination_is_schur_complement : forall (o : Ops) (n : nat) (P : pa
 Proof. move=> o n P k; exact: elim_1x1_spec. Qed.
 Print Assumptions C10_elimination_is_schur_complement.
 
+(* in exact arithmetic that step is one step of the L D L^T factorization: a_ik = l_i d, a_ij = S_ij + l_i d l_j, pivot entry left in place *)
+Theorem C10_elimination_1x1_is_ldlt_step : forall (F : rcfType) (n : nat) (P : list (list F)) (k : nat),
+  wf (o:=OpsF F) n P -> (k < n)%N -> pget (OpsF F) P k k != 0 ->
+  let d := pget (OpsF F) P k k in
+  let P' := (elim_1x1 (OpsF F) n P k).1 in
+  [/\ pget (OpsF F) P' k k = d,
+      forall i, (k < i < n)%N -> pget (OpsF F) P i k = pget (OpsF F) P' i k * d &
+      forall i j, (k < j)%N -> (j <= i < n)%N -> pget (OpsF F) P i j = pget (OpsF F) P' i j + pget (OpsF F) P' i k * d * pget (OpsF F) P' j k].
+Proof. move=> F n P k; exact: elim_1x1_reconstruct. Qed.
+Print Assumptions C10_elimination_1x1_is_ldlt_step.
+
+(* gaussian_elimination_2x2 at step k with a nonsingular pivot block E = [e11 e21; e21 e22]: with (x1_i, x2_i) = solve_2x2 E (a_ik, a_i,k+1) the
+   trailing triangle receives a_ij - (x1_i a_jk + x2_i a_j,k+1), the columns k, k+1 below the block receive x1_i, x2_i, nothing else is touched -
+   for every scalar instance *)
+Theorem C10_elimination_2x2_entries : forall (o : Ops) (n : nat) (P : packed o) (k : nat), wf (o:=o) n P -> (k + 1 < n)%N ->
+  let e11 := pget o P k k in let e21 := pget o P (k + 1)%N k in let e22 := pget o P (k + 1)%N (k + 1)%N in
+  Ops.eqb o (Ops.sub o (Ops.mul o e11 e22) (Ops.mul o e21 e21)) (zero o) = false ->
+  let X i := solve_2x2 o e11 e21 e22 (pget o P i k) (pget o P i (k + 1)%N) in
+  let '(P', inf) := elim_2x2 o n P k in
+  [/\ inf = 0%N, wf n P' & forall i j, (j <= i < n)%N ->
+     pget o P' i j = if (k + 1 < j)%N then Ops.sub o (pget o P i j) (Ops.add o (Ops.mul o (X i).1 (pget o P j k)) (Ops.mul o (X i).2 (pget o P j (k + 1)%N)))
+                     else if (k + 1 < i)%N && (j == k) then (X i).1
+                     else if (k + 1 < i)%N && (j == k + 1)%N then (X i).2 else pget o P i j].
+Proof. move=> o n P k; exact: elim_2x2_spec. Qed.
+Print Assumptions C10_elimination_2x2_entries.
+
+(* and in exact arithmetic it is one 2x2 block step of L D L^T: (a_ik, a_i,k+1) = E l_i, a_ij = S_ij + l_i^T E l_j, block left in place *)
+Theorem C10_elimination_2x2_is_ldlt_step : forall (F : rcfType) (n : nat) (P : list (list F)) (k : nat), wf (o:=OpsF F) n P -> (k + 1 < n)%N ->
+  let pg := pget (OpsF F) in
+  let e11 := pg P k k in let e21 := pg P (k + 1)%N k in let e22 := pg P (k + 1)%N (k + 1)%N in
+  e11 * e22 - e21 * e21 != 0 ->
+  let P' := (elim_2x2 (OpsF F) n P k).1 in
+  [/\ pg P' k k = e11 /\ pg P' (k + 1)%N k = e21 /\ pg P' (k + 1)%N (k + 1)%N = e22,
+      forall i, (k + 1 < i < n)%N -> pg P i k = e11 * pg P' i k + e21 * pg P' i (k + 1)%N /\ pg P i (k + 1)%N = e21 * pg P' i k + e22 * pg P' i (k + 1)%N &
+      forall i j, (k + 1 < j)%N -> (j <= i < n)%N ->
+        pg P i j = pg P' i j + (pg P' i k * (e11 * pg P' j k + e21 * pg P' j (k + 1)%N) + pg P' i (k + 1)%N * (e21 * pg P' j k + e22 * pg P' j (k + 1)%N))].
+Proof. move=> F n P k; exact: elim_2x2_reconstruct. Qed.
+Print Assumptions C10_elimination_2x2_is_ldlt_step.
+
 (* the 2x2 diagonal block solve used by solve_inplace and gaussian_elimination_2x2 *)
 Theorem C10_solve_2x2 : forall (F : rcfType) (e11 e21 e22 b1 b2 : F), e11 * e22 - e21 * e21 != 0 ->
   let '(x1, x2) := solve_2x2 (OpsF F) e11 e21 e22 b1 b2 in
